@@ -27,7 +27,8 @@ def _worker(job):
         H = make_harness(job["harness"], job["params"])
         r = explore(H, roots=job.get("roots"), max_paths=job.get("chunk", 400),
                     deadline=job.get("deadline"), timeout_ms=job.get("timeout_ms", 20000),
-                    xval=job.get("xval", 2), known=job.get("known", ()), seed=job.get("seed", 0), labels=job.get("labels"))
+                    xval=job.get("xval", 2), known=job.get("known", ()), seed=job.get("seed", 0), labels=job.get("labels"),
+                    second_solver_every=job.get("second_solver_every", 0))
         r["functions"] = H.encoded_functions()
         r["stubs"] = list(H.stubs_doc)
         r["assumptions"] = list(H.assumptions_doc)
@@ -40,7 +41,8 @@ def job_key(job):
     return json.dumps([job["harness"], job["params"]], sort_keys=True)
 
 
-def run_jobs(jobs, nproc=None, deadline=None, chunk=300, known=(), xval=2, timeout_ms=20000, seed=0, progress=None, labels=None):
+def run_jobs(jobs, nproc=None, deadline=None, chunk=300, known=(), xval=2, timeout_ms=20000, seed=0, progress=None, labels=None,
+             second_solver_every=0):
     """returns (results: key -> merged result, errors: list, timed_out: bool)"""
     nproc = nproc or min(16, os.cpu_count() or 4)
     ctx = mp.get_context("fork")
@@ -51,7 +53,7 @@ def run_jobs(jobs, nproc=None, deadline=None, chunk=300, known=(), xval=2, timeo
         j.setdefault("roots", [[]])
         kn = [k for k in known if not k.get("job_filter") or eval(k["job_filter"], {"params": j["params"], "harness": j["harness"]})]
         j.update(chunk=chunk, deadline=deadline, known=kn, xval=xval, timeout_ms=timeout_ms, seed=seed,
-                 labels=None if labels is None else sorted(labels))
+                 labels=None if labels is None else sorted(labels), second_solver_every=second_solver_every)
         pending.append(j)
     timed_out = False
     inflight = 0
